@@ -517,4 +517,26 @@ def eqKey (a : Addr) : Nat × Option Nat × Option Bytes := (a.ty.code, a.net, a
 def hashKey (a : Addr) : Nat × Option Nat × Option Bytes × Option Unit :=
   (a.ty.code, a.net, a.addr, none)
 
+/-! ## `__eq__` on addresses that carry a route (`addrRoute`)
+
+Outside the notations of the claim, modelled to state exactly what the claim
+needs from the stack: under default settings (`settings.route_aware` off) the
+network layer never attaches a route, and `_tuple()` ignores routes. -/
+
+/-- an address together with its `addrRoute` -/
+structure RAddr where
+  base : Addr
+  route : Option Addr
+deriving DecidableEq, Repr
+
+/-- `__eq__`: basic components, and the routes only `if rslt and self.addrRoute and arg.addrRoute` -/
+def addrEqR (a b : RAddr) : Bool :=
+  addrEq a.base b.base &&
+    (match a.route, b.route with
+     | some r, some s => addrEq r s
+     | _, _ => true)
+
+/-- `_tuple()` with `settings.route_aware` off -/
+def hashKeyR (a : RAddr) : Nat × Option Nat × Option Bytes × Option Unit := hashKey a.base
+
 end BacVerif.Addr
